@@ -68,6 +68,8 @@ class Report:
         self.out_of_reach = []
         self.dead_paths = []
         self.findings = []
+        self.cover_by_witness = []
+        self.witness_runs = 0
         self.lemma_obs = 0
         self.solver_time = 0.0
 
@@ -134,9 +136,18 @@ def proof_part(pid, rep: Report, registry, findings):
             o = r.obligations[min(2, len(r.obligations) - 1)]
             rep.samples.append({"obligation": o.name, "kind": o.kind, "where": o.where, "goal": str(o.goal)[:300],
                                 "status": o.status, "backend": o.backend})
+        wit_ok = None
         for o in r.obligations:
             if o.status == "discharged":
                 continue
+            if o.status == "unknown" and o.kind == "cover":
+                # satisfiability of a path condition left open by the solvers: non-vacuity is then shown by a concrete
+                # witness input of the contract, run natively through the real function and the same contract text
+                if wit_ok is None:
+                    wit_ok = run_witnesses(info, rep)
+                if wit_ok:
+                    rep.cover_by_witness.append(o.name)
+                    continue
             if o.status == "inconsistent":
                 rep.defects.append(f"{o.name}: solvers disagree {o.details}")
             elif o.status == "unknown":
@@ -151,6 +162,25 @@ def proof_part(pid, rep: Report, registry, findings):
                         rep.dead_paths.append(o.name)
                     continue
                 handle_refuted(pid, rep, r, o)
+
+
+def run_witnesses(info, rep):
+    from pyvc import replay as R
+    w = getattr(info.cls, "witnesses", None)
+    if w is None:
+        return False
+    try:
+        cases = w()
+        ok = True
+        for kw in cases:
+            res = R.native_check(info, kw)
+            rep.witness_runs += 1
+            if not res["ok"] or res["outcome"].startswith("precondition"):
+                ok = False
+        return ok and bool(cases)
+    except Exception as e:
+        rep.defects.append(f"witness of {info.name} failed to run: {e!r}")
+        return False
 
 
 def handle_refuted(pid, rep, r, o):
@@ -237,6 +267,7 @@ def emit(rep: Report, level, t0, manifest_note=""):
         "lemma_obligations": rep.lemma_obs,
         "undecided": rep.undecided,
         "dead_paths": rep.dead_paths,
+        "covers_shown_by_native_witness": rep.cover_by_witness,
         "known_findings": [h["id"] for h in rep.known_hits],
         "samples": rep.samples + rep.bounded.get("samples", [])[:6],
         "evaluations": int(rep.bounded.get("evaluations", 0)),
